@@ -34,11 +34,13 @@ struct Cfg {
     capacity: usize,
     prefill: usize,
     bound: u32,
+    /// > 0: caller 0's response body has this many bytes
+    big: usize,
 }
 
 impl Cfg {
     fn to_json(&self, choices: &[usize]) -> Value {
-        json!({"leg":"router-sched","n":self.n,"coalescing":self.coalescing,"read_chunk":self.read_chunk,"capacity":self.capacity,"prefill":self.prefill,"bound":self.bound,"choices":choices})
+        json!({"leg":"router-sched","n":self.n,"coalescing":self.coalescing,"read_chunk":self.read_chunk,"capacity":self.capacity,"prefill":self.prefill,"bound":self.bound,"big":self.big,"choices":choices})
     }
     fn from_json(v: &Value) -> Cfg {
         Cfg {
@@ -48,6 +50,7 @@ impl Cfg {
             capacity: v["capacity"].as_u64().unwrap_or(0) as usize,
             prefill: v["prefill"].as_u64().unwrap_or(0) as usize,
             bound: v["bound"].as_u64().unwrap_or(2) as u32,
+            big: v["big"].as_u64().unwrap_or(0) as usize,
         }
     }
 }
@@ -195,7 +198,7 @@ async fn drive(cfg: &Cfg, ch: &mut Chooser, w: &mut World, run: &mut Run) -> Res
         match alts[pick].0.clone() {
             Act::Poll(t) => w.poll_task(t).await,
             Act::Start => {
-                w.start_caller(caller_spec(next_start));
+                w.start_caller(if next_start == 0 && cfg.big > 0 { caller_spec_big(0, cfg.big) } else { caller_spec(next_start) });
                 next_start += 1;
             }
             Act::Advance => {
@@ -284,17 +287,27 @@ fn configs(thorough: bool) -> Vec<Cfg> {
                 if !thorough && capacity == 1 && (read_chunk == 1 || co == "1ms") {
                     continue;
                 }
-                v.push(Cfg { n: 2, coalescing: co.into(), read_chunk, capacity, prefill: 0, bound: b2 });
+                v.push(Cfg { n: 2, coalescing: co.into(), read_chunk, capacity, prefill: 0, bound: b2, big: 0 });
                 // (1 ms coalescing adds a free 'advance' alternative at most steps: one bound lower in the quick tier)
-                v.push(Cfg { n: 3, coalescing: co.into(), read_chunk, capacity, prefill: 0, bound: if co == "1ms" && !thorough { b3 - 1 } else { b3 } });
+                v.push(Cfg { n: 3, coalescing: co.into(), read_chunk, capacity, prefill: 0, bound: if co == "1ms" && !thorough { b3 - 1 } else { b3 }, big: 0 });
             }
         }
     }
-    // exhaustion through the real writer path: the router's own map pre-filled by 32768-j real allocate calls
+    // response bodies around and above the reader's 32 KiB initial allocation: with 1 deviation the peer writes the next
+    // response before the router has looked at the big one, i.e. both arrive back-to-back in one read
+    for big in [32767usize, 32768, 32769, 40000, 65535, 65536, 65537, 100000] {
+        for read_chunk in [0usize, 4096, 50_000] {
+            if !thorough && read_chunk == 4096 && big % 2 == 0 {
+                continue;
+            }
+            v.push(Cfg { n: 2, coalescing: "yield".into(), read_chunk, capacity: 0, prefill: 0, bound: if thorough { 2 } else { 1 }, big });
+        }
+    }
+        // exhaustion through the real writer path: the router's own map pre-filled by 32768-j real allocate calls
     for j in if thorough { vec![0usize, 1, 2] } else { vec![1usize] } {
-        v.push(Cfg { n: 2, coalescing: "yield".into(), read_chunk: 0, capacity: 0, prefill: 32768 - j, bound: if thorough { 2 } else { 1 } });
+        v.push(Cfg { n: 2, coalescing: "yield".into(), read_chunk: 0, capacity: 0, prefill: 32768 - j, bound: if thorough { 2 } else { 1 }, big: 0 });
         if thorough {
-            v.push(Cfg { n: 3, coalescing: "yield".into(), read_chunk: 0, capacity: 0, prefill: 32768 - j, bound: 1 });
+            v.push(Cfg { n: 3, coalescing: "yield".into(), read_chunk: 0, capacity: 0, prefill: 32768 - j, bound: 1, big: 0 });
         }
     }
     v
@@ -322,7 +335,10 @@ fn main() {
                     r.violation(&k, &t, cj.clone());
                 }
             }
-            Err(p) => r.violation("panic", &format!("panic: {p} at {}", vcore::last_panic_location()), cj.clone()),
+            Err(p) => {
+                let (k, t) = split_key(&panic_complaint("replay", &p));
+                r.violation(&k, &t, cj.clone());
+            }
         }
         r.finish_replay();
     }
@@ -341,7 +357,7 @@ fn main() {
             let out = vcore::catch(std::panic::AssertUnwindSafe(|| run_one(&cfg, ch)));
             let (verdict, run) = match out {
                 Ok(x) => x,
-                Err(p) => (Err(format!("panic|panic inside the router or harness: {p} at {}", vcore::last_panic_location())), Run::default()),
+                Err(p) => (Err(panic_complaint("one execution of the router harness", &p)), Run::default()),
             };
             execs.fetch_add(1, Ordering::Relaxed);
             if run.cancel_while_owed_then_answered {
@@ -397,8 +413,8 @@ fn main() {
         r.eval(n_exec);
         r.transitions.fetch_add(n_exec, Ordering::Relaxed);
         r.nontrivial(nontrivial.load(Ordering::Relaxed));
-        println!("cfg n={} coalescing={:<5} read_chunk={} capacity={} prefill={:<5} bound={} executions={} max_points={} violations={} capped={:?} wall={:.1}s", cfg.n, cfg.coalescing, cfg.read_chunk, cfg.capacity, cfg.prefill, cfg.bound, n_exec, res.max_points, res.violations.len(), res.capped, t0.elapsed().as_secs_f64());
-        per_cfg.push(json!({"n":cfg.n,"coalescing":cfg.coalescing,"read_chunk":cfg.read_chunk,"capacity":cfg.capacity,"prefill":cfg.prefill,"bound_completed":if res.capped.is_none() { json!(cfg.bound) } else { json!(null) },"executions":n_exec,"max_choice_points":res.max_points,"capped":res.capped}));
+        println!("cfg n={} big={:<6} coalescing={:<5} read_chunk={} capacity={} prefill={:<5} bound={} executions={} max_points={} violations={} capped={:?} wall={:.1}s", cfg.n, cfg.big, cfg.coalescing, cfg.read_chunk, cfg.capacity, cfg.prefill, cfg.bound, n_exec, res.max_points, res.violations.len(), res.capped, t0.elapsed().as_secs_f64());
+        per_cfg.push(json!({"n":cfg.n,"big_body":cfg.big,"coalescing":cfg.coalescing,"read_chunk":cfg.read_chunk,"capacity":cfg.capacity,"prefill":cfg.prefill,"bound_completed":if res.capped.is_none() { json!(cfg.bound) } else { json!(null) },"executions":n_exec,"max_choice_points":res.max_points,"capped":res.capped}));
         if let Some(t) = res.sample_traces.last() {
             r.sample(cfg.to_json(t));
         }
@@ -418,7 +434,7 @@ fn main() {
     if sigs.len() < 2 && r.violation_count() == 0 {
         vcore::machinery_error("vacuous: fewer than 2 distinct outcome signatures");
     }
-    r.set_rule("E-ASYNC/E-DFS on the real Connection::router with real send_request callers over a scripted stream. Per configuration (n callers x write coalescing off/yield/1ms x short reads x submit-channel capacity x pre-filled id space) every choice sequence within the deviation bound is executed; free choices: which woken task is lowest (default), start next caller / answer any held request whole at a quiescent point (so all response orders and all submission-response interleavings are covered at bound 0); 1 deviation each: poll another woken task, any environment action while a task is woken, split a response (inside header / after header / inside body), drop a caller's future. evaluations = executions (also reported as transitions). distinct_nontrivial = executions in which a caller was dropped while the peer owed its response and the peer answered that stream afterwards (cancellation notice and response in flight for the same stream). traces_validated_against_impl = executions replayed a second time with the full observation trace compared (determinism audit of select!-branch randomness), plus every violation.");
+    r.set_rule("E-ASYNC/E-DFS on the real Connection::router with real send_request callers over a scripted stream. Per configuration (n callers x write coalescing off/yield/1ms x short reads x submit-channel capacity x pre-filled id space x a 32767..100000-byte response body for caller 0) every choice sequence within the deviation bound is executed; free choices: which woken task is lowest (default), start next caller / answer any held request whole at a quiescent point (so all response orders and all submission-response interleavings are covered at bound 0); 1 deviation each: poll another woken task, any environment action while a task is woken, split a response (inside header / after header / inside body), drop a caller's future. evaluations = executions (also reported as transitions). distinct_nontrivial = executions in which a caller was dropped while the peer owed its response and the peer answered that stream afterwards (cancellation notice and response in flight for the same stream). traces_validated_against_impl = executions replayed a second time with the full observation trace compared (determinism audit of select!-branch randomness), plus every violation.");
     r.assume("the default schedule polls the lowest woken task id (router first); every other order costs deviations, so coverage is 'all schedules within the bound', not all schedules");
     r.finish();
 }
